@@ -22,6 +22,11 @@ CHECKS = {
         "error must appear exactly when the reachable graph is cyclic. A catalogue of 7 tiny graphs is run under every schedule with <=1 (quick) / <=2 "
         "(thorough) preemptions.",
    note="Termination is decided on generated graphs and fair schedules only; graphs <= 10 nodes and <= 4096 paths (the runner's cycle walk is not memoised)."),
+ "C06": dict(engine="cosched", level="exploration", section="5 C06", technique="schedule exploration (rapid): generated load graphs x generated schedules on the cooperative scheduler over the real dawn.Load, exact deadlock detection",
+   text="Generated projects (packages, shared helper modules, chains, diamonds, self-loads, 2..n-cycles) are loaded by the real dawn.Load while the cooperative "
+        "scheduler owns the scheduling points of package and module loading; a third of the cases run free with generated delays. Oracle: Load returns, each "
+        "module executed once, acyclic => expected targets and flags, cyclic => cyclic-dependency error.",
+   note="Starlark execution between load statements is atomic under the scheduler; <= 4 packages and <= 5 helper modules."),
  "C07": dict(engine="starval", level="exploration", section="5 C07", technique="property-based testing (rapid): round-trip / isomorphism oracle over generated values",
    text="Generated-value search (rapid, shrinking) against a structural-isomorphism oracle that also compares types and aliasing, plus a pair oracle "
         "(one-leaf mutations must not decode equal) and encode determinism/fixpoint. Boundary classes (int widths, string lengths, batch sizes at every "
@@ -31,6 +36,11 @@ CHECKS = {
    text="Shards run under taskset with 1,2,3,4 and 16 CPUs (the runner's limit is runtime.NumCPU); graphs are biased to fans wider than the limit. The harness "
         "counter of executing targets must never exceed the limit; leaked or held slots show as a confirmed deadlock, extra releases as counter > limit.",
    note="The counter is a lower bound of the slots held (incremented after a slot is taken, decremented before it is returned); limits other than 1,2,3,4,16 are not run."),
+ "C20": dict(engine="cosched", level="exploration", section="5 C20", technique="schedule exploration (rapid): generated caller/key/outcome patterns x generated schedules on the cooperative scheduler over the real Cache.once",
+   text="A real Cache value (obtained through Project.REPLEnv) is called by 2-6 goroutines over 1-3 keys with generated failing/succeeding callables while the "
+        "cooperative scheduler owns once's scheduling points (or delays are injected). Oracle: one successful computation per key, identical value for all "
+        "callers, failed calls cache nothing, no deadlock.",
+   note="Windows without a scheduling point are reached only by delay injection and -race (thorough)."),
  "C10": dict(engine="mvssim", level="exploration", section="5 C10", technique="property-based testing (rapid): differential against a reference MVS (reachability + max) plus metamorphic cache/order variations",
    text="Generated universes (diamonds, cycles, several majors, pre-releases) and root requirement sets are resolved by mvs.BuildList and by an independent "
         "BFS/maximum reference; the answer must be identical with warm memo, warm disk cache, cold cache and all requirement names renamed.",
